@@ -177,9 +177,15 @@ func (cs *Contracts) parseFile(path string) error {
 		mk := func(text string) (Clause, error) {
 			name := ""
 			// optional label  "name: expr" where name is an identifier w/o spaces
-			if i := strings.Index(text, ": "); i > 0 && isIdent(text[:i]) {
+			cprop := ""
+			if i := strings.Index(text, ": "); i > 0 && isIdent(strings.ReplaceAll(text[:i], "@", "_")) {
 				name = text[:i]
 				text = strings.TrimSpace(text[i+2:])
+				// label@C03: the clause belongs to another property than its function
+				if j := strings.Index(name, "@"); j > 0 {
+					cprop = name[j+1:]
+					name = name[:j]
+				}
 			}
 			e, err := parseExprAt(text, where)
 			if err != nil {
@@ -188,6 +194,9 @@ func (cs *Contracts) parseFile(path string) error {
 			p := prop
 			if cur != nil && cur.Prop != "" {
 				p = cur.Prop
+			}
+			if cprop != "" {
+				p = cprop
 			}
 			return Clause{Text: text, Expr: e, Prop: p, Name: name, Line: where}, nil
 		}
